@@ -21,6 +21,12 @@ def main(tier):
     rep.extra['rule'] = 'one evaluation per contract clause per operation/atom; distinct = distinct (crystal, clause kind) signatures'
     from contracts import fresh_c
     fresh_c.run(rep, contracts=fresh_c.CRYSTAL_CONTRACTS, class_fields=[])      # ownership (level P): the crystal shares no array with its constructor arguments
+    # maptranslation (the search behind every symmetry operation) under E1 contract (level P): a returned mapping really maps, for every
+    # meaning of the two floating-point tests
+    from vf.pyvc import driver
+    from contracts import maptranslation_c as MT
+    driver.verify_function(MT.MapTranslation(), rep, tier)
+    for a in MT.MapTranslation.ABSTRACTED: rep.assume('maptranslation contract, abstracted: ' + a)
     return finish(rep, 'exploration',
                   'Run-time contract on Crystal construction over the bounded catalogue: every operation is an integer unimodular lattice map, an '
                   'isometry, maps each atom onto the recorded atom of the same species (spins up to one global phase), and the set is closed '
